@@ -884,16 +884,19 @@ static void gen_expr(Node *node) {
 
       // If the lhs is a bitfield, we need to read the current value
       // from memory and merge it with a new value.
+      // The masks may not fit in a 32-bit immediate, so load them into
+      // a register first. A 64-bit wide field takes every bit.
       Member *mem = node->lhs->member;
+      unsigned long ones = (mem->bit_width == 64) ? -1UL : (1UL << mem->bit_width) - 1;
       println("  mov %%rax, %%rdi");
-      println("  and $%ld, %%rdi", (1L << mem->bit_width) - 1);
+      println("  mov $%ld, %%r9", (long)ones);
+      println("  and %%r9, %%rdi");
       println("  shl $%d, %%rdi", mem->bit_offset);
 
       println("  mov (%%rsp), %%rax");
       load(mem->ty);
 
-      long mask = ((1L << mem->bit_width) - 1) << mem->bit_offset;
-      println("  mov $%ld, %%r9", ~mask);
+      println("  mov $%ld, %%r9", (long)~(ones << mem->bit_offset));
       println("  and %%r9, %%rax");
       println("  or %%rdi, %%rax");
       store(node->ty);
